@@ -1046,7 +1046,8 @@ def strat_universal_lc(tier):
   @st.composite
   def s(draw):
     t = draw(st.sampled_from(['UniversalImpl', 'LinearComplexity', 'LinearComplexity',
-                              'LinearComplexityImpl', 'LinearComplexityScatter']))
+                              'LinearComplexityImpl', 'LinearComplexityScatter',
+                              'LinearComplexityScatter']))
     fams = ['rand', 'rand', 'rand', 'lfsr', 'lfsr', 'zeros', 'ones', 'period', 'blockrep', 'alt0',
             'runs', 'single', 'biased']
     if t == 'UniversalImpl':
@@ -1069,8 +1070,9 @@ def strat_universal_lc(tier):
       n = draw(st.integers(bs, bs * 40 + 7))
       return case(t, draw(s_string(st.just(min(n, 6000)), fams)), {'bs': bs})
     step = draw(st.one_of(st.integers(1, 8), st.integers(1, 70)))
-    n = draw(st.one_of(st.integers(step, step + 70), st.integers(step, 5000)))
-    mb = draw(st.one_of(st.none(), st.integers(1, 200)))
+    n = draw(st.one_of(st.integers(step, step + 70), st.integers(step, 5000),
+                       st.integers(4090, 4400)))
+    mb = draw(st.one_of(st.none(), st.none(), st.integers(1, 200)))
     return case(t, draw(s_string(st.just(n), fams)), {'step': step, 'mb': mb})
   return s()
 
@@ -1499,11 +1501,6 @@ def enum_tables(tier):
 # ---------------------------------------------------------------- known findings (predicates)
 
 NIST_LR_10000 = [0.0882, 0.2092, 0.2483, 0.1933, 0.1208, 0.0675, 0.0727]
-
-
-def _string_of(desc):
-  s = desc.get('s') if isinstance(desc, dict) else None
-  return make_string(s) if s else (None, None)
 
 
 def _pred_f10(arm, desc, v):
